@@ -6,6 +6,8 @@ from fractions import Fraction
 
 import numpy as np
 
+from .. import shapes as S
+
 from ..core import fmt_list, parse_rats, frac, err_kind, close, exact, floats
 
 ID = "C15"
@@ -22,6 +24,8 @@ PARTIAL = "Gaussianity / seed reproducibility / empirical SNR are NumPy's (stati
 
 def cases(rng, tier):
     n_ = {"quick": 300, "thorough": 3000}.get(tier, 200)
+    for _ in range({"quick": 1, "thorough": 4}.get(tier, 1)):
+        yield long_case(rng)         # more than a million samples (a day at 10 Hz): the definition is global
     for i in range(n_):
         n = rng.randint(1, 40)
         a = rng.values(n)
@@ -38,6 +42,31 @@ def cases(rng, tier):
                "stat": i < (3 if tier != "thorough" else 12), "seed": rng.randint(0, 10 ** 6)}
 
 
+def A(c):
+    """the signal: given sample by sample, or - for long signals - as a short pattern repeated with a loudness that grows
+    quarter by quarter (a quiet night, a loud evening)"""
+    if "long" in c:
+        n, pat = c["long"], [Fraction(v) for v in c["a"]]
+        return [pat[i % len(pat)] * (1 + 3 * ((4 * i) // n)) for i in range(n)]
+    return [Fraction(v) for v in c["a"]]
+
+
+def D(c):
+    if "long" in c:
+        d = [Fraction(v) for v in c["draw"]]
+        return [d[i % len(d)] for i in range(c["long"])]
+    return [Fraction(v) for v in c["draw"]]
+
+
+def long_case(rng):
+    n = rng.choice([2 ** 20 + 5, 2 ** 20 + 1, 2 ** 21 + 3, 1500000])
+    mode = rng.choice(["db", "lin"])
+    return {"long": n, "a": [str(v) for v in rng.values(7)], "mode": mode, "per": False,
+            "snr": [rng.choice([10, 20, 3]) if mode == "db" else rng.choice([2, 10, 100])], "std": 1.0,
+            "draw": [str(rng.dyadic(-40, 40, 16)) for _ in range(11)], "via": rng.choice(["process", "weaver"]),
+            "stat": False, "seed": 0, "layout": "contig,contig,contig", "hist": "none"}
+
+
 def lin_snr(c):
     if c["mode"] == "db":
         return [10 ** (s / 10) for s in c["snr"]]
@@ -45,7 +74,7 @@ def lin_snr(c):
 
 
 def request(c):
-    a = [Fraction(v) for v in c["a"]]
+    a = A(c)
     if c["mode"] == "std":
         return []
     snr = [Fraction(float(v)) for v in lin_snr(c)]
@@ -55,16 +84,35 @@ def request(c):
 def run_impl(c):
     from traffic_weaver.process import noise_gauss
     from traffic_weaver import Weaver
-    a = np.array(floats([Fraction(v) for v in c["a"]]))
-    draw = np.array(floats([Fraction(v) for v in c["draw"]]))
+    a = np.array(floats(A(c)))
+    draw = np.array(floats(D(c)))
     rec = {}
     orig = np.random.normal
 
+    pos = [0]
+
     def fake(loc=0.0, scale=1.0, size=None):
-        rec["loc"] = float(loc)
-        rec["scale"] = [float(v) for v in np.atleast_1d(scale)]
-        rec["size"] = list(size) if isinstance(size, tuple) else size
-        return draw.reshape(size)
+        # the scripted generator: hands out the draw in the order it is asked for (in one call or in several)
+        k = int(np.prod(size)) if size is not None else int(np.size(scale))
+        rec["calls"] = rec.get("calls", 0) + 1
+        if rec["calls"] == 1:
+            rec["loc"] = float(loc)
+            rec["scale"] = [float(v) for v in np.atleast_1d(scale)]
+            rec["size"] = list(size) if isinstance(size, tuple) else size
+        else:
+            if rec["calls"] == 2:        # several calls: keep one std per sample
+                first = rec["size"][0] if isinstance(rec["size"], list) else (rec["size"] or len(rec["scale"]))
+                if len(rec["scale"]) == 1:
+                    rec["scale"] = rec["scale"] * int(first)
+                rec["size"] = int(first)
+            sc = [float(v) for v in np.atleast_1d(scale)]
+            rec["scale"] += sc * k if len(sc) == 1 else sc
+            rec["size"] += k
+            if float(loc) != 0.0:
+                rec["loc"] = float(loc)
+        out = draw.ravel()[pos[0]:pos[0] + k]
+        pos[0] += k
+        return out.reshape(size) if size is not None else out
     kw = {}
     snr = None
     snr_before = None
@@ -80,10 +128,10 @@ def run_impl(c):
     try:
         try:
             if c["via"] == "process":
-                r = noise_gauss(a.copy(), snr=snr, **kw)
+                r = noise_gauss(S.arr(a.tolist()), snr=snr, **kw)
                 x_after = None
             else:
-                w = Weaver(np.arange(len(a)).astype(float), a.copy())
+                w = Weaver(S.arr(np.arange(len(a)).astype(float).tolist()), S.arr(a.tolist()))
                 w.noise(snr, **kw)
                 r = w.get()[1]
                 x_after = [float(v) for v in w.get()[0]]
@@ -122,8 +170,8 @@ def run_impl(c):
 def compare(c, io, mo):
     if "err" in io:
         return f"impl raised {io['err']}"
-    a = [Fraction(v) for v in c["a"]]
-    draw = [Fraction(v) for v in c["draw"]]
+    a = A(c)
+    draw = D(c)
     if not exact(io["ok"], [u + v for u, v in zip(a, draw)]):
         return "result is not a + draw"
     rec = io["rec"]
@@ -143,7 +191,7 @@ def compare(c, io, mo):
 def oracle(c, io):
     if "err" in io:
         return f"noise raised {io['err']}"
-    a = floats([Fraction(v) for v in c["a"]])
+    a = floats(A(c))
     n = len(a)
     if len(io["ok"]) != n:
         return "noise changed the length"
